@@ -55,7 +55,7 @@ theorem mkPatch_accessors (a k : String) (v : Json) (hk : valueKey? a = some k) 
   exact ⟨this.1, this.2.1⟩
 
 /-- documents carrying an id are refused -/
-theorem doc_with_id_refused (kvs : List (String × Json)) (h : stringEntry (Json.lookup "id" kvs) ≠ "") :
+theorem doc_with_id_refused (kvs : List (String × Json)) (v : Json) (h : Json.lookup "id" kvs = some v) :
     fromDocument (.obj kvs) = none := by
   simp [fromDocument, h]
 
